@@ -204,11 +204,11 @@ def _run_once(case, enc, cpu_limit):
     return {"calls": p.calls, "out": out}
 
 
-def real_run(case, enc="endtime", timeout=20.0):
+def real_run(case, enc="endtime", timeout=4.0):
     """-> {"calls": [(start, end, [ids per dep], [distinct (start,end) of the merged inputs])], "out": None|code}
     A run that yields more results than there are input chunks, or burns more than `timeout` seconds of CPU
-    (a normal run takes about a millisecond), is reported as RUNAWAY -- after a second run with twice the
-    budget confirmed it."""
+    (a normal run takes about a millisecond of CPU), is reported as RUNAWAY -- after a second run with twice
+    the budget confirmed it."""
     r = _run_once(case, enc, timeout)
     if r["out"] == "RUNAWAY":
         r = _run_once(case, enc, 2 * timeout)
@@ -230,11 +230,21 @@ def fmt_real(r):
     return calls + (" # ok" if r["out"] is None else " # err %s" % r["out"])
 
 
+MAX_RUNAWAYS_PER_BATCH = 3
+
+
 def _worker(batch):
     warnings.simplefilter("ignore")
     out = []
+    runaways = 0
     for idx, case in batch:
+        if runaways >= MAX_RUNAWAYS_PER_BATCH:
+            # circuit breaker: an implementation that hangs on many inputs is reported from the first few
+            out.append(("SKIPPED", {"calls": [], "out": "SKIPPED"}))
+            continue
         r = real_run(case, "endtime" if idx % 2 == 0 else "length")
+        if r["out"] == "RUNAWAY":
+            runaways += 1
         out.append((fmt_real(r), r))
     return out
 
@@ -329,7 +339,7 @@ def predicates(case, r, max_passes):
     byid = [{q[2]: q for q in rows} for rows in R]
     n = len(R)
     if out == "RUNAWAY":
-        return "iter did not terminate (more results than input chunks, or no progress for 30 s)"
+        return "iter did not terminate (more results than input chunks, or more than 4 s of CPU where a normal run needs about 1 ms; confirmed with 8 s)"
     wf_inputs = all(well_formed_chunk(c) for cs in case["deps"] for c in cs)
     # 1. alignment: one identical interval for all inputs of a call, rows inside it
     for (s, e, idl, rngs) in calls:
@@ -391,14 +401,10 @@ def predicates(case, r, max_passes):
         # a dependency other than the pacemaker that reaches the common end before its last chunk keeps
         # zero-duration chunks back: "terminated without fetching last" (loud)
         trailing = any(i != pm and any(c["e"] == hi for c in cs[:-1]) for i, cs in enumerate(case["deps"]))
-        if deep is not None:
-            if out != 42:
-                return "a staircase deeper than the pass limit at %d did not raise the too-many-passes error " \
-                       "(got %s)" % (deep, out)
-        elif trailing:
-            if out != 43:
-                return "an unfetched trailing zero-duration chunk did not raise (got %s)" % (out,)
-        elif out is not None:
+        # Only the positive direction is part of the property (C08_iter_total_below_pass_limit): shallow
+        # staircases and no chunk kept back => no error.  That a deep staircase / a trailing chunk DOES raise is
+        # how the code behaves today (pinned by the model comparison), not something C08 demands.
+        if deep is None and not trailing and out is not None:
             return "iter raised %s on law-abiding inputs whose staircases are all shallower than the pass limit" % (
                 ERRNAME.get(out, out),)
     return None
@@ -812,7 +818,11 @@ class Sink:
         self.timing = getattr(self, "timing", [])
         self.timing.append("batch %d: model %.1fs impl %.1fs" % (len(cases), t1 - t0, t2 - t1))
         dist = self.dist
+        n_skipped = 0
         for case, mo, (rs, r) in zip(cases, mout, rout):
+            if r["out"] == "SKIPPED":
+                n_skipped += 1
+                continue
             tag = case["tag"].rstrip("0123456789")
             for k in ("%s/%s" % (tag, "ok" if r["out"] is None else ERRNAME.get(r["out"], "err %s" % r["out"])),
                       "calls=%d" % min(len(r["calls"]), 6),
@@ -823,8 +833,8 @@ class Sink:
             reason = predicates(case, r, mp)
             if reason:
                 if self.bad <= 6:
-                    small = shrink(case, lambda c: predicates(c, real_run(c, timeout=5.0), mp) is not None)
-                    r2 = real_run(small, timeout=5.0)
+                    small = shrink(case, lambda c: predicates(c, real_run(c, timeout=2.0), mp) is not None)
+                    r2 = real_run(small, timeout=2.0)
                     if predicates(small, r2, mp) is None:      # never report a case that does not fail on re-run
                         small, r2 = case, r
                     ctx.violation("iter", "Plugin.iter violates C08: %s (implementation: %s)"
@@ -836,26 +846,26 @@ class Sink:
                 self.n_disagree += 1
                 if self.bad <= 6:
                     def disagree(c):
-                        return fmt_real(real_run(c, timeout=5.0)) != lib.run_model("C08", [enc_case(c)])[0]
+                        return fmt_real(real_run(c, timeout=2.0)) != lib.run_model("C08", [enc_case(c)])[0]
                     small = shrink(case, disagree)
                     found = None
                     for nb in neighbourhood(small):      # search for a failing input around the disagreement
-                        rr = real_run(nb, timeout=5.0)
+                        rr = real_run(nb, timeout=2.0)
                         why = predicates(nb, rr, mp)
                         if why:
                             found = (nb, rr, why)
                             break
                     if found:
                         nb, rr, why = found
-                        nb = shrink(nb, lambda c: predicates(c, real_run(c, timeout=5.0), mp) is not None)
-                        rr = real_run(nb, timeout=5.0)
+                        nb = shrink(nb, lambda c: predicates(c, real_run(c, timeout=2.0), mp) is not None)
+                        rr = real_run(nb, timeout=2.0)
                         ctx.violation("iter", "Plugin.iter violates C08: %s (implementation: %s)"
                                       % (predicates(nb, rr, mp), fmt_real(rr)),
                                       {"input": show_case(nb), "impl": fmt_real(rr), "unit": "iter"})
                     else:
                         ctx.violation("iter", "model/implementation disagree on Plugin.iter (impl `%s`, model `%s`); "
                                       "the property predicates hold on this input and its neighbourhood"
-                                      % (fmt_real(real_run(small, timeout=5.0)), lib.run_model("C08", [enc_case(small)])[0]),
+                                      % (fmt_real(real_run(small, timeout=2.0)), lib.run_model("C08", [enc_case(small)])[0]),
                                       {"input": "corr:C08/iter", "case": show_case(small), "unit": "iter"},
                                       no_failing_input=True)
                 self.bad += 1
@@ -865,7 +875,9 @@ class Sink:
         idxs = ctx.rng.sample(range(len(cases)), min(40, len(cases)))
         self.cross += [(cases[i], mout[i]) for i in idxs
                        if sum(len(c["rows"]) for cs in cases[i]["deps"] for c in cs) <= 30]
-        self.total += len(cases)
+        self.total += len(cases) - n_skipped
+        if n_skipped:
+            ctx.notes.append("%d cases of a batch were skipped after repeated non-termination" % n_skipped)
 
 
 def run(ctx):
